@@ -173,7 +173,16 @@ def run(chk):
     for c in cases:
         r = run_one(c)
         results.append(r)
-        lines.append(model_line(c["machine"], c["input"], r.exec_arn, r.plans.oracle(), max_data=c.get("max_data")))
+        n_replies = sum(len(reps) for ents in r.plans.table.values() for (_p, reps) in ents.values())
+        if r.status not in ("SUCCEEDED", "FAILED") or n_replies > 400:
+            # a runaway engine run (generated machines are acyclic with bounded retries: their executions end): reported
+            # as it is; its huge oracle table is not put through the model (`oracleFn` scans it linearly)
+            chk.report("impl-violates-law", {"machine": c["machine"], "input": c["input"], "plans": c["plans"], "max_data": c.get("max_data")},
+                       impl={"status": r.status, "steps": r.sim.steps, "task_replies": n_replies},
+                       law="a generated (acyclic, bounded-retry) machine's execution ends", classify=classify)
+            lines.append("interp\tskip")
+        else:
+            lines.append(model_line(c["machine"], c["input"], r.exec_arn, r.plans.oracle(), max_data=c.get("max_data")))
         rl = refusal_lines(c["machine"], r.refusals)
         spans.append((len(extra), len(extra) + len(rl)))
         extra.extend(rl)
